@@ -359,3 +359,154 @@ macro_rules! rt3_connect {
 //@ desc: v3 CONNECT round trip incl. flag byte layout per spec 3.1.2.3
 rt3_connect!(rt3_connect, 2);
 
+
+// ---- C19 / C10: protocol-version sniffing agrees with the real CONNECT decoders -----------------
+use crate::version::{ProtocolVersion, VersionCodec};
+
+/// spec view: (fixed header length) if the fixed header is complete
+fn spec_fixed_len(b: &[u8]) -> Option<usize> {
+    if b.len() < 2 {
+        return None;
+    }
+    let mut i = 1;
+    while i < b.len() && i <= 4 {
+        if b[i] & 128 == 0 {
+            return Some(i + 1);
+        }
+        i += 1;
+    }
+    None
+}
+
+macro_rules! vr_classify {
+    ($name:ident, $n:expr) => {
+        vharness! {
+            fn $name() unwind(8) {
+                let data: [u8; $n] = vk::any_bytes::<$n>();
+                let len = vk::any_len($n);
+                let cut = vk::any_len($n);
+                vk::assume(cut <= len);
+                let vc = VersionCodec;
+                let mut full = vk::bytesmut_of(data, len);
+                let r = vc.decode(&mut full);                  // never panics (index arithmetic)
+                assert!(full.len() == len, "version sniffing must not consume");
+                // classification against the specification of the first packet
+                if let Some(hl) = spec_fixed_len(&data[..len]) {
+                    if data[0] != 0x10 {
+                        assert!(r == Err(crate::error::DecodeError::UnsupportedPacketType));
+                    } else if len >= hl + 7 {
+                        let name_ok = data[hl] == 0 && data[hl + 1] == 4 && data[hl + 2] == b'M'
+                            && data[hl + 3] == b'Q' && data[hl + 4] == b'T' && data[hl + 5] == b'T';
+                        if !name_ok {
+                            assert!(r == Err(crate::error::DecodeError::InvalidProtocol));
+                        } else if data[hl + 6] == 4 {
+                            assert!(r == Ok(Some(ProtocolVersion::MQTT3)));
+                        } else if data[hl + 6] == 5 {
+                            assert!(r == Ok(Some(ProtocolVersion::MQTT5)));
+                        } else {
+                            assert!(r == Err(crate::error::DecodeError::InvalidProtocol));
+                        }
+                    } else {
+                        assert!(r == Ok(None));
+                    }
+                } else {
+                    assert!(matches!(r, Ok(None) | Err(_)));
+                }
+                // fragmentation: what a prefix decided stays decided when more bytes arrive
+                let mut pre = vk::bytesmut_of(data, cut);
+                let rp = vc.decode(&mut pre);
+                assert!(pre.len() == cut);
+                match rp {
+                    Ok(Some(v)) => assert!(r == Ok(Some(v))),
+                    Err(e) => assert!(r == Err(e)),
+                    Ok(None) => {}
+                }
+                vcover!(r == Ok(Some(ProtocolVersion::MQTT3)), "level 4");
+                vcover!(r == Ok(Some(ProtocolVersion::MQTT5)), "level 5");
+                vcover!(r == Err(crate::error::DecodeError::InvalidProtocol), "invalid protocol");
+                vcover!(r == Ok(Some(ProtocolVersion::MQTT5)) && rp == Ok(None), "decided only with the later bytes");
+                vcover!(r == Ok(Some(ProtocolVersion::MQTT3)) && data[1] >= 128, "two-byte remaining length");
+            }
+        }
+    };
+}
+//@ props: C19 C10 C02
+//@ tier: quick
+//@ functions: version::VersionCodec::decode, utils::decode_variable_length(_cursor)
+//@ bounds: every first-bytes buffer of 0..=12 arbitrary bytes, every prefix of it (symbolic cut)
+//@ unwindset: decode_variable_length_cursor=6 spec_fixed_len=6
+//@ desc: protocol sniffing: never consumes, never panics; non-CONNECT first packet is refused; name != MQTT or level not in {4,5} is refused; level 4 -> v3, level 5 -> v5; the verdict on a prefix is never revised when more bytes arrive
+vr_classify!(vr_classify, 12);
+
+vharness! {
+    //@ props: C19
+    //@ tier: quick
+    //@ functions: version::VersionCodec::decode, v3 decode::decode_packet(CONNECT) = decode_connect_packet
+    //@ bounds: CONNECT body of 0..=14 arbitrary bytes behind the header 10 <len>
+    //@ unwindset: utf8_is_valid=6 decode_variable_length_cursor=6
+    //@ desc: whenever sniffing says MQTT 3.1.1 and the whole frame is present, the v3 CONNECT decoder does not refuse the protocol name or level of the same bytes (the two never disagree about the version)
+    fn vr_agree_v3() unwind(16) {
+        let body: [u8; 14] = vk::any_bytes::<14>();
+        let blen = vk::any_len(14);
+        let mut data = [0u8; 16];
+        data[0] = 0x10;
+        data[1] = blen as u8;
+        let mut i = 0;
+        while i < 14 { data[2 + i] = body[i]; i += 1; }
+        let mut src = vk::bytesmut_of(data, 2 + blen);
+        let r = VersionCodec.decode(&mut src);
+        let d = decode::decode_packet(vk::bytes_of(body, blen), 0x10);
+        if r == Ok(Some(ProtocolVersion::MQTT3)) {
+            assert!(d != Err(crate::error::DecodeError::InvalidProtocol));
+            assert!(d != Err(crate::error::DecodeError::UnsupportedProtocolLevel));
+            vcover!(d.is_ok(), "sniffed v3 and CONNECT accepted");
+        }
+        if d.is_ok() {
+            assert!(r == Ok(Some(ProtocolVersion::MQTT3)));
+        }
+        vcover!(r == Ok(Some(ProtocolVersion::MQTT5)), "sniffed v5");
+    }
+}
+
+vharness! {
+    //@ props: C19
+    //@ tier: quick
+    //@ functions: version::VersionCodec::decode, v5 Connect::decode
+    //@ bounds: CONNECT body of 0..=14 arbitrary bytes behind the header 10 <len>
+    //@ unwindset: utf8_is_valid=6 decode_variable_length_cursor=6 Connect=6
+    //@ desc: whenever sniffing says MQTT 5 and the whole frame is present, the v5 CONNECT decoder does not refuse the protocol name or level; whenever the v5 decoder accepts, sniffing said MQTT 5
+    fn vr_agree_v5() unwind(16) {
+        let body: [u8; 14] = vk::any_bytes::<14>();
+        let blen = vk::any_len(14);
+        let mut data = [0u8; 16];
+        data[0] = 0x10;
+        data[1] = blen as u8;
+        let mut i = 0;
+        while i < 14 { data[2 + i] = body[i]; i += 1; }
+        let mut src = vk::bytesmut_of(data, 2 + blen);
+        let r = VersionCodec.decode(&mut src);
+        let mut b = vk::bytes_of(body, blen);
+        let d = crate::v5::codec::Connect::decode(&mut b);
+        if r == Ok(Some(ProtocolVersion::MQTT5)) {
+            assert!(!matches!(d, Err(crate::error::DecodeError::InvalidProtocol)));
+            assert!(!matches!(d, Err(crate::error::DecodeError::UnsupportedProtocolLevel)));
+            vcover!(d.is_ok(), "sniffed v5 and CONNECT accepted");
+        }
+        if d.is_ok() {
+            assert!(r == Ok(Some(ProtocolVersion::MQTT5)));
+        }
+    }
+}
+
+vharness! {
+    //@ props: C19
+    //@ tier: quick
+    //@ expect: fail
+    //@ desc: reachability twin of vr_classify (claims sniffing never recognises a version)
+    fn twin_vr_classify() unwind(8) {
+        let data: [u8; 10] = vk::any_bytes::<10>();
+        let mut src = vk::bytesmut_of(data, 10);
+        let r = VersionCodec.decode(&mut src);
+        assert!(!matches!(r, Ok(Some(_))));
+    }
+}
